@@ -1146,11 +1146,23 @@ class Interp:
         self.assign(cx, fr, e.target, v)
         return v
 
+    def eval_elts(self, cx, fr, elts):
+        out = []
+        for x in elts:
+            if isinstance(x, ast.Starred):
+                items = self.iter_concrete(cx, self.eval(cx, fr, x.value))
+                if items is None:
+                    raise Unsupported("unpacking (*) of a symbolic collection in a display")
+                out.extend(items)
+            else:
+                out.append(self.eval(cx, fr, x))
+        return out
+
     def ex_Tuple(self, cx, fr, e):
-        return tuple(self.eval(cx, fr, x) for x in e.elts)
+        return tuple(self.eval_elts(cx, fr, e.elts))
 
     def ex_List(self, cx, fr, e):
-        return [self.eval(cx, fr, x) for x in e.elts]
+        return self.eval_elts(cx, fr, e.elts)
 
     def ex_Set(self, cx, fr, e):
         vals = [self.eval(cx, fr, x) for x in e.elts]
@@ -2186,6 +2198,29 @@ def make_builtins(interp):
                 return MapGen(f, it)  # only all()/any() can consume it
             raise Unsupported("map() over symbolic")
         return ConcreteIter([interp.call_value(cx, fr, f, [x], {}) for x in items])
+
+    @reg("filter")
+    def _filter(cx, fr, f, it):
+        items = interp.iter_concrete(cx, it)
+        if items is not None:
+            out = []
+            for x in items:
+                if cx.decide(truth(cx, interp.call_value(cx, fr, f, [x], {}) if f is not None else x)):
+                    out.append(x)
+            return ConcreteIter(out)
+        if isinstance(it, SSet) and f is not None:
+            # {k in S | f(k)}: the predicate is evaluated once on a generic element
+            k = z3.Const(fresh_name("fk"), it.kt.sort())
+            v, fails, axioms = interp.eval_on_element(cx, f, it.kt.wrap(k), k)
+            for exc, fc in fails:
+                cx.oblige(f"quantified-predicate-total:{exc}", "no-exception", z3.ForAll([k], z3.Implies(it.has(k), z3.Not(fc))), clause="the filter predicate is defined for every element")
+            for ax in axioms:
+                cx.assume(z3.ForAll([k], z3.Implies(it.has(k), ax)))
+            p = as_bool(cx, truth(cx, v))
+            res = SSet.fresh(it.kt, "filtered")
+            cx.assume(z3.ForAll([k], res.has(k) == z3.And(it.has(k), p)))
+            return res
+        raise Unsupported("filter() over this collection")
 
     @reg("sorted")
     def _sorted(cx, fr, it, key=None):
